@@ -98,26 +98,63 @@ type Exec struct {
 }
 
 type Worker struct {
-	id     int
-	solver *smt.Solver
-	alt    []*smt.Solver // fallback back ends for unknown obligation results
+	id      int
+	solver  *smt.Solver
+	alt     []*smt.Solver // fallback back ends for unknown obligation results
+	solvers map[string]*smt.Solver
+	timeout int
+}
+
+func (w *Worker) get(be string) *smt.Solver {
+	if w.solvers == nil {
+		w.solvers = map[string]*smt.Solver{}
+	}
+	s, ok := w.solvers[be]
+	if !ok {
+		to := w.timeout
+		name := be
+		if strings.HasSuffix(be, ":feas") {
+			// branch feasibility checks: short timeout (unknown = keep the branch)
+			name = strings.TrimSuffix(be, ":feas")
+			if to > 4000 {
+				to = 4000
+			}
+		}
+		s = smt.NewSolver(name, to)
+		w.solvers[be] = s
+	}
+	return s
+}
+
+// chain returns the back ends to try, in order, for a query. Pure bit-vector queries go to z3 5.1 first; queries
+// with Int/Real arithmetic (float model, Int-domain inputs) go to z3 4.8.12 first (z3 5.1 diverges on mixed
+// to_int/is_int arithmetic that 4.8.12 and cvc5 decide in milliseconds).
+func (m *M) chain(as []*smt.Term) []string {
+	arith := false
+	for _, a := range as {
+		if termHasArith(a) {
+			arith = true
+			break
+		}
+	}
+	if m.ex.Cfg.Backend != "z3-new" {
+		return []string{m.ex.Cfg.Backend, "z3-new", "z3", "cvc5"}
+	}
+	if arith {
+		return []string{"z3", "cvc5", "z3-new"}
+	}
+	return []string{"z3-new", "cvc5-int", "z3", "cvc5"}
 }
 
 // checkObligation: primary back end first; on unknown the other back ends are tried (portfolio).
 func (m *M) checkObligation(as []*smt.Term, want []*smt.Term) (smt.Result, smt.Model) {
-	res, model, _ := m.w.solver.Check(as, want)
-	if res != smt.Unknown {
-		return res, model
-	}
-	if m.w.alt == nil {
-		for _, be := range []string{"z3-new", "cvc5", "z3"} {
-			if be != m.ex.Cfg.Backend {
-				m.w.alt = append(m.w.alt, smt.NewSolver(be, m.ex.Cfg.TimeoutMs))
-			}
+	seen := map[string]bool{}
+	for _, be := range m.chain(as) {
+		if seen[be] {
+			continue
 		}
-	}
-	for _, s := range m.w.alt {
-		res, model, _ = s.Check(as, want)
+		seen[be] = true
+		res, model, _ := m.w.get(be).Check(as, want)
 		if res != smt.Unknown {
 			return res, model
 		}
@@ -193,10 +230,10 @@ func (ex *Exec) Run() {
 		wg.Add(1)
 		go func(id int) {
 			defer wg.Done()
-			w := &Worker{id: id, solver: smt.NewSolver(ex.Cfg.Backend, ex.Cfg.TimeoutMs)}
+			w := &Worker{id: id, timeout: ex.Cfg.TimeoutMs}
+			w.solver = w.get(ex.Cfg.Backend)
 			defer func() {
-				w.solver.Close()
-				for _, a := range w.alt {
+				for _, a := range w.solvers {
 					a.Close()
 				}
 			}()
@@ -515,7 +552,11 @@ func (m *M) knownValue(c *smt.Term) (bool, bool) {
 
 func (m *M) feasible(c *smt.Term) bool {
 	as := append(sliceFor(m.st.PC, c), c)
-	r, _, _ := m.w.solver.Check(as, nil)
+	ch := m.chain(as)
+	r, _, _ := m.w.get(ch[0] + ":feas").Check(as, nil)
+	if r == smt.Unknown && len(ch) > 1 {
+		r, _, _ = m.w.get(ch[1] + ":feas").Check(as, nil)
+	}
 	return r != smt.Unsat
 }
 
@@ -1279,7 +1320,7 @@ func (m *M) implicitAssert(cond *smt.Term, tag string) {
 func (m *M) reportPanicEscape() {
 	ex := m.ex
 	tag := ex.Entry.Name() + "/no-panic"
-	res, model, _ := m.w.solver.Check(m.st.PC, m.nondetWants())
+	res, model := m.checkObligation(m.st.PC, m.nondetWants())
 	ex.mu.Lock()
 	defer ex.mu.Unlock()
 	o := ex.ob(tag)
@@ -1325,7 +1366,7 @@ func (m *M) recordWitness(status string) {
 			obsTerms = append(obsTerms, smt.True)
 		}
 	}
-	res, model, _ := m.w.solver.Check(m.st.PC, append(want, obsTerms...))
+	res, model := m.checkObligation(m.st.PC, append(want, obsTerms...))
 	if res != smt.Sat {
 		return
 	}
